@@ -170,7 +170,11 @@ def box(types, v, st):
     lvs = types.leaves(v.t)
     if len(lvs) == 1 and lvs[0][1] == 'I':
         if v.lv is None:
-            raise OutOfSubset('boxing interior pointer')
+            # pointer into the middle of an object: an opaque payload derived from the location;
+            # the location travels with the value so that callees' writes can be accounted for
+            l = v.loc
+            f = ops.uf('intptr_%d' % (abs(hash((l.fam, l.tk, l.static_path()))) % (10 ** 9)), *([I] * (1 + len(l.indices())) + [I]))
+            return Val('any', {('t',): tag, ('p',): f(l.ref, *l.indices())}, loc=l)
         return Val('any', {('t',): tag, ('p',): v.lv[lvs[0][0]]})
     if len(lvs) == 0:
         return Val('any', {('t',): tag, ('p',): z3.IntVal(0)})
